@@ -268,7 +268,9 @@ class WebSocket:
             self.handshake_response = handshake(self.sock, url, *addrs, **options)
             for _ in range(options.pop("redirect_limit", 3)):
                 if self.handshake_response.status in SUPPORTED_REDIRECT_STATUSES:
-                    url = self.handshake_response.headers["location"]
+                    url = self.handshake_response.headers.get("location")
+                    if not url:
+                        raise WebSocketException("Redirect response without Location header")
                     self.sock.close()
                     self.sock, addrs = connect(
                         url,
